@@ -114,7 +114,10 @@ class Chord:
 
     def transpose(self, interval):
         cp = self.copy()
-        cp.tonality.degree += interval
+        # keep the degree in 0..11 and carry the rest into the octave (a degree of 14 has no name: the chord could not be printed)
+        total = cp.tonality.degree + interval
+        cp.tonality.degree = total % 12
+        cp.tonality.octave += total // 12
         return cp
 
     def add_tags(self, tags):
